@@ -38,6 +38,7 @@ def sesJ (s : Ses) : Json :=
 def recvOf (j : Json) : R Recv := do
   match getStrD j "t" with
   | "ses" => pure (.ses (← sesOf (field j "ses")))
+  | "sesgone" => pure (.sesGone (← sesOf (field j "ses")))
   | "other" => pure .other
   | "fail" => pure (.fail (getStrD j "how" "close" == "close"))
   | x => throw s!"bad recv {x}"
@@ -59,6 +60,7 @@ def authOutJ : AuthOut → Json
 
 def recvJ : Recv → Json
   | .ses s => Json.mkObj [("t", "ses"), ("ses", sesJ s)]
+  | .sesGone s => Json.mkObj [("t", "sesgone"), ("ses", sesJ s)]
   | .other => Json.mkObj [("t", "other")]
   | .fail eof => Json.mkObj [("t", "fail"), ("how", if eof then "close" else "garbage")]
 
